@@ -16,20 +16,22 @@ pub struct Ctx {
     pub oset: St,
 }
 
-fn ctx(populated: bool) -> Ctx {
+/// 0: all empty; 1: populated, the two maps / sets differ in size; 2: populated and equal
+fn ctx(populated: u8) -> Ctx {
     let c = Ctx {
         map: M::default(),
         other: M::default(),
         set: St::default(),
         oset: St::default(),
     };
-    if populated {
+    if populated > 0 {
+        let n_other = if populated == 2 { 20u32 } else { 5u32 };
         let g = c.map.guard();
         for i in 0..20u32 {
             c.map.insert(Key::new(i, 0), Val::new(i as i64), &g);
         }
         let g = c.other.guard();
-        for i in 0..5u32 {
+        for i in 0..n_other {
             c.other.insert(Key::new(i, 0), Val::new(i as i64), &g);
         }
         let g = c.set.guard();
@@ -37,7 +39,7 @@ fn ctx(populated: bool) -> Ctx {
             c.set.insert(Key::new(i, 0), &g);
         }
         let g = c.oset.guard();
-        for i in 0..5u32 {
+        for i in 0..n_other {
             c.oset.insert(Key::new(i, 0), &g);
         }
     }
@@ -167,7 +169,7 @@ pub struct ApiResult {
 pub fn run(json_rows: &[(String, String)]) -> (Vec<ApiResult>, Vec<String>) {
     let mut out = Vec::new();
     let all = stubs();
-    for populated in [false, true] {
+    for populated in [0u8, 1, 2] {
         for (name, f) in &all {
             // foreign guard
             let c = ctx(populated);
@@ -201,7 +203,7 @@ pub fn run(json_rows: &[(String, String)]) -> (Vec<ApiResult>, Vec<String>) {
             drop(own);
             out.push(ApiResult {
                 name: name.to_string(),
-                populated,
+                populated: populated > 0,
                 panicked: r.is_err(),
                 foreign_uses,
                 two_guard: name.contains('#') || name.contains("::eq"),
